@@ -153,7 +153,9 @@ def iter_files(
                 the_dir,
                 subset_files=subset_files,
                 include_submodules=include_submodules,
-                include_meson_subprojects=include_meson_subprojects,
+                # The name of the directory that is walked is of no concern.
+                include_meson_subprojects=include_meson_subprojects
+                or root == directory,
                 include_reuse_tomls=include_reuse_tomls,
                 vcs_strategy=vcs_strategy,
             ):
